@@ -47,7 +47,9 @@ func TestVerifC14Banner(t *testing.T) {
 	accepts := []string{"", "text/html", "text/html,application/xhtml+xml,*/*;q=0.8", "application/json", "*/*", "TEXT/HTML", "text/htmlx"}
 	modes := []string{"", "navigate", "nested-navigate", "cors"}
 	dests := []string{"", "document", "iframe", "empty"}
-	referers := []string{"", "http://verif.example/page", "http://verif.example/other", "http://else.example/page", "::bad url", "/page"}
+	referers := []string{"", "http://verif.example/page", "http://verif.example/other", "http://else.example/page", "::bad url", "/page",
+		"http://verif.example:8080/page", "http://verif.example:9090/page", "https://verif.example:8080/page?q=1", "http://verif.example:8080/other"}
+	targets := []string{"http://verif.example/page?x=1&y=<z>", "http://verif.example/page?x=1&y=<z>", "http://verif.example:8080/page?x=1&y=<z>", "http://verif.example:8080/page"}
 	statuses := []int{200, 200, 200, 201, 204, 301, 304, 404, 500}
 	ctypes := []string{"", "text/html", "text/html; charset=utf-8", "application/xhtml+xml", "application/json", "text/plain", "TEXT/HTML", "image/png", "text/htmlish"}
 	cdisps := []string{"", "", "inline", "attachment; filename=x.html", "ATTACHMENT", "form-data; name=attachment"}
@@ -79,7 +81,7 @@ func TestVerifC14Banner(t *testing.T) {
 		br.Fields = append(br.Fields, [2]string{"Set-Cookie", "k=v"}, [2]string{"X-Other", "o"})
 		cur = br
 		method := methods[rng.intn(len(methods))]
-		req := httptest.NewRequest(method, "http://verif.example/page?x=1&y=<z>", nil)
+		req := httptest.NewRequest(method, targets[rng.intn(len(targets))], nil)
 		acc, mode, dest, ref := accepts[rng.intn(len(accepts))], modes[rng.intn(len(modes))], dests[rng.intn(len(dests))], referers[rng.intn(len(referers))]
 		if acc != "" {
 			req.Header.Set("Accept", acc)
